@@ -193,9 +193,10 @@ package plat
 //     run without the earlier allocation, and the gcn3 binary with it, pass.
 //     Found by ./check C01 under batch seed 2 (run 873); minimised replay:
 //     /verif/findings/C01-cdna3-buffers-around-4gib-line-matrixmultiplication-seed2-run873.json
-//     (it reproduces with harness c01 as of /verif commit e9cca0d). Not root-caused;
-//     suspect: insts/decodetable.go gives v_mad_u64_u32 a 32-bit destination and a
-//     32-bit third source (the kernel uses it for its 64-bit addresses).
+//     (it reproduces with harness c01 as of /verif commit e9cca0d). Not root-caused
+//     (widening v_mad_u64_u32's destination and third source in insts/decodetable.go
+//     was tried and does not cure it; only this workload fails when the position is
+//     forced on for every cdna3 emulation run).
 //
 // OTHER FINDINGS (no configuration excluded because of them)
 //   - shoc/fft: Verify compares the two halves of the HOST input with each
